@@ -321,7 +321,21 @@ func (x *Exec) valueInstr(fr *frame, st *State, ins ssa.Value, reach Term) Val {
 		return x.next(fr, st, i, reach)
 	case *ssa.Select:
 		x.c.Note("select in %s: any case may be chosen (blocking not modelled)", fr.fn.String())
-		return freshVal(x.c, fr.prefix+"_select", i.Type())
+		tv := freshVal(x.c, fr.prefix+"_select", i.Type())
+		// ghost history: the value last received from a channel parameter (spec: lastrecv(ch))
+		tp := i.Type().(*types.Tuple)
+		k := 2
+		for _, cs := range i.States {
+			if cs.Dir != types.RecvOnly {
+				continue
+			}
+			if n := chanName(cs.Chan); n != "" && fr.top && k < tp.Len() {
+				lo, hi := tupleFieldRange(tp, k)
+				st.ghost["recv$"+n] = Val{T: tp.At(k).Type(), L: append([]Term{}, tv.L[lo:hi]...)}
+			}
+			k++
+		}
+		return tv
 	case *ssa.SliceToArrayPointer, *ssa.MultiConvert:
 		return freshVal(x.c, fr.prefix+"_conv", ins.Type())
 	}
@@ -355,7 +369,11 @@ func (x *Exec) unop(fr *frame, st *State, i *ssa.UnOp, reach Term) Val {
 		return Val{T: i.Type(), L: []Term{Op("bvnot", v.L[0].Sort, v.L[0])}}
 	case token.ARROW:
 		x.c.Note("channel receive in %s yields an arbitrary value", fr.fn.String())
-		return freshVal(x.c, fr.prefix+"_recv", i.Type())
+		rv := freshVal(x.c, fr.prefix+"_recv", i.Type())
+		if n := chanName(i.X); n != "" && fr.top && !i.CommaOk {
+			st.ghost["recv$"+n] = rv
+		}
+		return rv
 	}
 	panic("unop " + i.Op.String())
 }
@@ -806,7 +824,7 @@ func (x *Exec) mapRead(st *State, mt types.Type, ref, key Term, reach Term) (Val
 	for j, l := range vs {
 		arr := x.heapGet(st, mapKey(mt, "v:"+l.Path), SArr(SRef, SArr(ks[0].Sort, l.Sort)))
 		out.L[j] = x.c.Define("mv", Select(Select(arr, ref), key))
-		if l.Sort == SRef {
+		if l.isRef() {
 			x.c.Assume(Imp(And(reach, present), Op("bvult", SBool, out.L[j], st.ctr)))
 		}
 	}
